@@ -29,7 +29,9 @@ Proof.
     rewrite ?andb_false_r, ?orb_false_r, ?orb_false_l, ?andb_true_r;
     repeat match goal with |- context [has d ?f] => destruct (has d f) end;
     try reflexivity;
-    try (destruct (uses_x args), (uses_y args); reflexivity).
+    try (destruct (uses_x args), (uses_y args); reflexivity);
+    try (unfold has_displacement;
+         destruct (existsb (fun a => match a with OIndex (IPostIncE _ _) => true | _ => false end) args), (uses_x args), (uses_y args); reflexivity).
 Qed.
 
 (** the device enters the encoder only through the reduced-core flag, and only for lds/sts *)
